@@ -558,7 +558,138 @@ def keys_by_enumeration(ctx, fi):
 
 
 # ------------------------------------------------------------------ S4
+def transposed_key(ctx, rule):
+  """Location-independent, finite domain: a transposing part declares its *written* key; the parser moves it along the circle of
+  fifths by the chromatic transposition so that the reported key is the sounding one.  Written fifths f range over -7..7 and the
+  chromatic transposition t over -11..11.  The block that stores the transposed key (and the helper it may call) is followed path
+  by path (sa.pathval), and for every (f, t) the stored value k on the path whose conditions hold is folded: it must be the same
+  key (7k = 7f + t mod 12) and a signature that exists (-7 <= k <= 7).  The first disagreeing pair is reported."""
+  from sa import pathval, scenario
+  fi = ctx.func('musicxml_parser:Measure._parse_attributes')
+  fn = fi.node
+  cons = 'the key of a transposing part is moved by the transposition and stays a valid signature'
+  store = None
+  for st in U.walk_stmts(fn):
+    for tgt, _v, op in U.store_targets(st):
+      if isinstance(tgt, ast.Attribute) and tgt.attr == 'key' and norm_text(tgt.value).endswith('key_signature') and op == 'store':
+        store = (st, tgt)
+  if store is None:
+    why = 'cannot classify: Measure._parse_attributes does not store a transposed key'
+    ctx.ob(rule, fi, fn, False, why, construct=cons, unknown=why)
+    return
+  st, tgt = store
+  loc = norm_text(tgt)
+  blk = next((b for b in U.blocks(fn) if any(x is st for x in b)), None)
+  # widen to the block that also holds the definition of the transposition (a few levels up)
+  pm = U.parents(fn)
+  cur = st
+  chosen = blk
+  for _ in range(4):
+    par = pm.get(id(cur))
+    if par is None or isinstance(par, (ast.For, ast.While, ast.FunctionDef)):
+      break
+    b2 = next((b for b in U.blocks(fn) if any(x is par for x in b)), None)
+    if isinstance(par, ast.If) and b2 is not None and not isinstance(pm.get(id(par)), (ast.For, ast.While)) and False:
+      chosen = b2
+    cur = par
+    if isinstance(par, ast.If):
+      body_blk = par.body if any(any(y is st for y in ast.walk(x)) for x in par.body) else par.orelse
+      if any(isinstance(x, ast.Assign) and any('chromatic' in norm_text(n) for n in ast.walk(x.value)) for x in body_blk):
+        chosen = body_blk
+        break
+  try:
+    ps = pathval.paths(chosen, opaque=True)
+  except pathval.PathError as e:
+    why = 'cannot classify: %s' % e
+    ctx.ob(rule, fi, st, False, why, construct=cons, unknown=why)
+    return
+  ci = fi.cls
+
+  def inline(value, conds, depth=0):
+    """[(conds, value)] with a call of a method / staticmethod of the class or of a module function replaced by its return paths."""
+    if isinstance(value, ast.Call) and depth < 2:
+      nm = (dotted(value.func) or '').split('.')[-1]
+      h = (ci.methods.get(nm) if ci is not None else None) or fi.module.functions.get(nm)
+      if h is not None and not value.keywords:
+        ps_ = [a.arg for a in h.node.args.args]
+        if ps_ and ps_[0] in ('self', 'cls') and len(ps_) == len(value.args) + 1:
+          ps_ = ps_[1:]
+        if len(ps_) == len(value.args):
+          env = dict(zip(ps_, value.args))
+          try:
+            hp = pathval.paths(h.node.body, env, opaque=True)
+          except pathval.PathError:
+            return [(conds, value)]
+          out = []
+          for c2, e2, end in hp:
+            if end == 'return' and pathval.RETURN in e2:
+              out.extend(inline(e2[pathval.RETURN], conds + c2, depth + 1))
+          return out or [(conds, value)]
+    return [(conds, value)]
+  alts = []
+  for conds, env, end in ps:
+    if loc in env:
+      v = env[loc]
+      if isinstance(v, ast.IfExp):
+        alts.extend(inline(v.body, conds + [(v.test, True)]))
+        alts.extend(inline(v.orelse, conds + [(v.test, False)]))
+      else:
+        alts.extend(inline(v, conds))
+  flat = []
+  for conds, v in alts:
+    if isinstance(v, ast.IfExp):
+      flat.append((conds + [(v.test, True)], v.body))
+      flat.append((conds + [(v.test, False)], v.orelse))
+    else:
+      flat.append((conds, v))
+  chrom = set()
+  for conds, v in flat:
+    for x in [v] + [t for t, _p in conds]:
+      for n in ast.walk(x):
+        if isinstance(n, ast.Call) and dotted(n.func) == 'int' and n.args and 'chromatic' in norm_text(n.args[0]):
+          chrom.add(norm_text(n.args[0]))
+  if len(chrom) != 1 or not flat:
+    why = 'cannot classify: the transposition read from <chromatic> was not identified in the stored key (%s)' % sorted(chrom)
+    ctx.ob(rule, fi, st, False, why, construct=cons, unknown=why)
+    return
+  catom = chrom.pop()
+  bad = None
+  n = 0
+  for f in range(-7, 8):
+    for t in range(-11, 12):
+      if t == 0:
+        continue
+      sub = {loc: nf.rat(U.E(repr(f))), catom: nf.rat(U.E(repr(t)))}
+      got = []
+      for conds, v in flat:
+        rel = [(c, p_) for c, p_ in conds if any(norm_text(x) in (loc, catom) for x in ast.walk(c))]
+        r = scenario.tv_all(rel, sub) if rel else True
+        if r is None:
+          why = 'cannot classify: a condition on the path to the stored key cannot be evaluated for fifths %d, chromatic %d' % (f, t)
+          ctx.ob(rule, fi, st, False, why, construct=cons, unknown=why)
+          return
+        if r:
+          got.append(scenario.fold_numeric(v, sub))
+      if len(got) != 1 or got[0] is None:
+        why = 'cannot classify: the stored key cannot be folded for fifths %d, chromatic %d' % (f, t)
+        ctx.ob(rule, fi, st, False, why, construct=cons, unknown=why)
+        return
+      k = got[0]
+      n += 1
+      if (7 * k) % 12 != (7 * f + t) % 12 or not -7 <= k <= 7:
+        bad = bad or (f, t, k)
+  if bad:
+    f, t, k = bad
+    names = ['Cb', 'Gb', 'Db', 'Ab', 'Eb', 'Bb', 'F', 'C', 'G', 'D', 'A', 'E', 'B', 'F#', 'C#']
+    ctx.ob(rule, fi, st, False, 'a part written with %d fifths (%s major) and a chromatic transposition of %d sounds in pitch class %d, but the stored key is %s fifths (%s): %s' % (
+        f, names[f + 7], t, (7 * f + t) % 12, k, (names[int(k) + 7] + ' major, pitch class %d' % ((7 * int(k)) % 12)) if -7 <= k <= 7 else 'not a signature',
+        'the reported key is not the sounding key'), construct=cons, definite=True)
+  else:
+    ctx.ob(rule, fi, st, True, 'for all %d (fifths, chromatic) pairs the stored key is the sounding key and a valid signature' % n, construct=cons)
+
+
 def keys(ctx):
+  transposed_key(ctx, 'KEY/transposed-sounding-key')
   fi = ctx.func('musicxml_reader:musicxml_to_sequence_proto')
   fn = fi.node
   keys_by_enumeration(ctx, fi)
@@ -861,6 +992,9 @@ def part_state(ctx):
 
 
 MUTANTS = [
+    Mutant('F32 reverted: transposed key folded with %= -6', P, "          if new_key > 6:\n            new_key -= 12\n", "          if new_key > 6:\n            new_key %= -6\n", rule='KEY/transposed-sounding-key'),
+    Mutant('transposed key: wrap at > 7 (leaves 7 sharps for 19 - 12)', P, "          if new_key > 6:\n            new_key -= 12\n", "          if new_key > 7:\n            new_key -= 12\n", expect='silent'),
+    Mutant('transposed key moved the wrong way round the circle', P, "          key_transpose = (transpose * -5) % 12\n", "          key_transpose = (transpose * 5) % 12\n", rule='KEY/transposed-sounding-key'),
     Mutant('seed C05_e: the transposition is not reset between parts', P, "    self._state.transpose = 0\n", "", rule='STATE/part-reset'),
     Mutant('the cursor is not reset between parts', P, "    self._state.time_position = 0\n", "", rule='STATE/part-reset'),
     Mutant('seed C05_b: bass alteration read from root-alter', P, "alter_tag='bass-alter'", "alter_tag='root-alter'", rule='ELEM/schema-child'),
